@@ -101,8 +101,9 @@ ASSUMPTIONS = [
     "distributions are compared through the exact maps (shots=None weights, "
     "get_marginal_fock_probabilities)",
 ]
-# fractions of all evaluations; measured on loaded full runs at seeds 1-3: 0.15-0.20 / 0.13-0.17 /
-# 0.17-0.24 (the wall-clock budgets cut the parts unevenly, hence the wide margin)
+# fractions of all evaluations; measured on full runs at seeds 1-3: 0.31 / 0.19 / 0.17 with ~2000
+# of 2562 budgeted evaluations, 0.15-0.20 / 0.13-0.24 / 0.24-0.28 on a heavily loaded machine
+# (the wall-clock budgets then cut the parts unevenly, hence the wide margin)
 FLOORS = {"perm_moves_multimode": 0.08, "swap_with_multimode": 0.05,
           "permuted_multimode_tuple": 0.03}
 
